@@ -268,6 +268,20 @@ func main() {
 		o.Def("envExplicitPanics", "Nat", strconv.Itoa(panics))
 	}
 
+	// 8. the functions through which a load reads the persisted records (C15, record level)
+	for _, x := range []struct{ file, fn, def string }{
+		{"project.go", "Project.loadTargetInfo", "bodyLoadTargetInfo"},
+		{"project_index.go", "Project.loadIndex", "bodyLoadIndex"},
+	} {
+		if f, err := lib.Parse(*repo, x.file); err != nil {
+			o.Fail("parse %s: %v", x.file, err)
+		} else if fd := f.Func(x.fn); fd == nil {
+			o.Fail("func %s not found", x.fn)
+		} else {
+			o.Def(x.def, "String", lib.LeanLongString(lib.NormFunc(fd)))
+		}
+	}
+
 	for _, b := range bodies {
 		fd := b.f.Func(b.name)
 		if fd == nil {
